@@ -741,6 +741,16 @@ macro_rules! impl_binop_match_arms {
               #[cfg(all(feature = $value_string, feature = "matrixd"))]
             (Value::[<Matrix $lhs_type>](Matrix::DMatrix(lhs)), Value::[<Matrix $lhs_type>](Matrix::DMatrix(rhs))) => {
               let (rows,cols) = {lhs.borrow().shape()};
+              let lhs_shape = (rows,cols);
+              let rhs_shape = {rhs.borrow().shape()};
+              if lhs_shape != rhs_shape {
+                return Err(
+                  MechError::new(
+                    DimensionMismatch { dims: vec![lhs_shape.0, lhs_shape.1, rhs_shape.0, rhs_shape.1] },
+                    None
+                  ).with_compiler_loc()
+                );
+              }
               Ok(Box::new([<$lib MDMD>]{lhs, rhs, out: Ref::new(DMatrix::from_element(rows,cols,$target_type::default()))}))
             },
             // Row Row
@@ -761,6 +771,16 @@ macro_rules! impl_binop_match_arms {
             },
             #[cfg(all(feature = $value_string, feature = "row_vectord"))]
             (Value::[<Matrix $lhs_type>](Matrix::RowDVector(lhs)), Value::[<Matrix $lhs_type>](Matrix::RowDVector(rhs))) => {
+              let lhs_shape = {lhs.borrow().shape()};
+              let rhs_shape = {rhs.borrow().shape()};
+              if lhs_shape != rhs_shape {
+                return Err(
+                  MechError::new(
+                    DimensionMismatch { dims: vec![lhs_shape.0, lhs_shape.1, rhs_shape.0, rhs_shape.1] },
+                    None
+                  ).with_compiler_loc()
+                );
+              }
               $registrar!([<$lib RDRD>], $target_type, $value_string);
               Ok(Box::new([<$lib RDRD>]{lhs: lhs.clone(), rhs, out: Ref::new(RowDVector::from_element(lhs.borrow().len(),$target_type::default())) }))
             },
@@ -782,6 +802,16 @@ macro_rules! impl_binop_match_arms {
             },
             #[cfg(all(feature = $value_string, feature = "vectord"))]
             (Value::[<Matrix $lhs_type>](Matrix::DVector(lhs)), Value::[<Matrix $lhs_type>](Matrix::DVector(rhs))) => {
+              let lhs_shape = {lhs.borrow().shape()};
+              let rhs_shape = {rhs.borrow().shape()};
+              if lhs_shape != rhs_shape {
+                return Err(
+                  MechError::new(
+                    DimensionMismatch { dims: vec![lhs_shape.0, lhs_shape.1, rhs_shape.0, rhs_shape.1] },
+                    None
+                  ).with_compiler_loc()
+                );
+              }
               $registrar!([<$lib VDVD>], $target_type, $value_string);
               Ok(Box::new([<$lib VDVD>]{lhs: lhs.clone(), rhs, out: Ref::new(DVector::from_element(lhs.borrow().len(),$target_type::default())) }))
             },
